@@ -285,13 +285,13 @@ pub fn run_c17(cfg: &Cfg) -> (Part, Value, bool) {
         part.require(r);
     }
     let mut subjects: Vec<Vo> = Vec::new();
-    let full_to = if q { 6 } else { 8 };
+    let full_to = if q { 8 } else { 10 };
     for l in 0..=full_to {
         for m in enumr::full(l) {
             subjects.push(Vo::new(K::F8x2, &m, Prov::Fresh));
         }
     }
-    for l in (full_to + 1)..=12 {
+    for l in (full_to + 1)..=16 {
         for w in 0..2 {
             subjects.push(Vo::new(K::F8x2, &aperiodic(l, w), Prov::Fresh));
         }
@@ -348,7 +348,7 @@ pub fn run_c17(cfg: &Cfg) -> (Part, Value, bool) {
     for i in 0..iter_states.min(1) {
         let _ = i;
     }
-    (part, json!({"subjects": subjects.len(), "subject_rule": format!("Bvf<u8,2>: every value of every length 0..={}, two aperiodic patterns for lengths up to 12; Bvd (exact and spare capacity), Bv (inline and heap), Bvf<u64,4>, Bvf<u128,2>, Bvf<u16,2> at boundary lengths", full_to),
+    (part, json!({"subjects": subjects.len(), "subject_rule": format!("Bvf<u8,2>: every value of every length 0..={}, two aperiodic patterns for lengths up to 16; Bvd (exact and spare capacity), Bv (inline and heap), Bvf<u64,4>, Bvf<u128,2>, Bvf<u16,2> at boundary lengths", full_to),
         "alphabet": "next, next_back, nth(k), nth_back(k) with k in {0,1,2,len-1,len,len+1,usize::MAX/2,usize::MAX-1,usize::MAX}; size_hint, count, last, rev().collect(), collect() from every state",
         "state": "(start,end) of the real iterator (hook verif_range) paired with the model iterator's remaining slice", "iterator_states": iter_states, "largest_state_space": max_states, "depth_backstop": "2*len+12"}), true)
 }
